@@ -41,6 +41,35 @@ func VerifC12Keys() {
 	var hasVal [vMaxKeys]bool
 	n := 0
 	T, M := vndParam("T"), vndParam("M")
+	if vndParam("prefix") == 1 {
+		// P-stale: a concrete pre-history that leaves freed offsets behind which still hold the key
+		// they had (the key column does not clear its data on delete); the symbolic history then
+		// starts from that state. Which pre-history is used is a symbolic choice.
+		ins := func(k int) { vndAssert(c.InsertKey(vKeyName(k), func(Row) error { return nil }) == nil, "prefix insert") }
+		del := func(k int) { vndAssert(c.DeleteKey(vKeyName(k)) == nil, "prefix delete") }
+		switch vndChoice("prefix", 4) {
+		case 0: // offsets 0 and 1 free, holding "a" and "bb"
+			ins(0)
+			ins(1)
+			del(0)
+			del(1)
+		case 1: // offset 0 free holding "a", "bb" live at 1
+			ins(0)
+			ins(1)
+			del(0)
+			has[1] = true
+		case 2: // offsets 0 and 1 free, holding "bb" and "a"
+			ins(1)
+			ins(0)
+			del(1)
+			del(0)
+		case 3: // "a" live at 0, offset 1 free holding "bb"
+			ins(0)
+			ins(1)
+			del(1)
+			has[0] = true
+		}
+	}
 	for t := 0; t < T; t++ {
 		abort := vndParam("aborts") == 1 && vndChoice("abort", 2) == 1
 		// Inside a transaction every key operation sees the COMMITTED table (has); its effects are
